@@ -321,10 +321,131 @@ func (la *lockAnalysis) aliasSites(fn *ssa.Function, name func(string) string) [
 
 // ---------- R17x: the cancel channel of a deadline record is closed by whoever removes the record ----------
 
-var rR17x = RuleRef{Name: "R17x", Doc: "a deadline record's cancel channel is closed once: every close(info.cancel) acts on a record that was read from ttlKeys in the same hold of the key's stripe in which it is closed (or, in a helper that leaves locking to its callers, with no stripe operation of its own in between). Closing a record read before the stripe was taken closes a channel that SetTTL, DelTTL or another CheckTTL may have closed in the meantime: `close of closed channel` in a connection goroutine ends the process", Run: func(c *C) {
+var rR17x = RuleRef{Name: "R17x", Doc: "a deadline record's cancel channel is closed once: every close(info.cancel) acts on a record that was read from ttlKeys in the same hold of the key's stripe in which it is closed (or, in a helper that leaves locking to its callers, with no stripe operation of its own in between; a record handed in as a parameter is followed to the call sites). Closing a record read before the stripe was taken closes a channel that SetTTL, DelTTL or another CheckTTL may have closed in the meantime: `close of closed channel` in a connection goroutine ends the process", Run: func(c *C) {
 	la := c.lockAn()
 	n := 0
-	for _, fn := range c.P.allFuncs("memdb") {
+	fns := c.P.allFuncs("memdb")
+	// origins of the record v, used (closed, or passed on towards the close) at instruction `use` of function fn
+	var origins func(v ssa.Value, use ssa.Instruction, fn *ssa.Function, depth int, seen map[ssa.Value]bool, bad *[]string, nOrigins *int)
+	origins = func(v ssa.Value, use ssa.Instruction, fn *ssa.Function, depth int, seen map[ssa.Value]bool, bad *[]string, nOrigins *int) {
+		if v == nil || seen[v] {
+			return
+		}
+		seen[v] = true
+		lf := la.flow(fn)
+		switch x := v.(type) {
+		case *ssa.Phi:
+			for _, e := range x.Edges {
+				origins(e, use, fn, depth, seen, bad, nOrigins)
+			}
+		case *ssa.Extract:
+			origins(x.Tuple, use, fn, depth, seen, bad, nOrigins)
+		case *ssa.TypeAssert:
+			origins(x.X, use, fn, depth, seen, bad, nOrigins)
+		case *ssa.ChangeType:
+			origins(x.X, use, fn, depth, seen, bad, nOrigins)
+		case *ssa.MakeInterface:
+			origins(x.X, use, fn, depth, seen, bad, nOrigins)
+		case *ssa.UnOp:
+			if al, ok := x.X.(*ssa.Alloc); ok && x.Op == token.MUL {
+				for _, r := range *al.Referrers() {
+					if st, ok := r.(*ssa.Store); ok && st.Addr == ssa.Value(al) {
+						origins(st.Val, use, fn, depth, seen, bad, nOrigins)
+					}
+				}
+				return
+			}
+			*bad = append(*bad, "the record comes from memory the analysis does not follow ("+x.String()+")")
+		case *ssa.Const:
+		case *ssa.Call:
+			var key ssa.Value
+			if a := c.keyspaceAccess(x); a != nil && a.Map == "ttlKeys" && !a.Write {
+				key = a.Key
+			} else if cf := callee(x); cf != nil && firstParty(cf) {
+				if pi := c.ttlLookupHelper(cf); pi >= 0 && pi < len(x.Call.Args) {
+					key = x.Call.Args[pi]
+				}
+			}
+			if key == nil {
+				*bad = append(*bad, "the record is the result of "+x.Call.Value.Name()+", not of a lookup in ttlKeys by key")
+				return
+			}
+			*nOrigins++
+			k := canon(key)
+			var hg, hc *heldLock
+			heldG, _ := lf.Held(x)
+			for i := range heldG {
+				if covers(heldG[i], k) {
+					hg = &heldG[i]
+				}
+			}
+			heldC, _ := lf.Held(use)
+			for i := range heldC {
+				if covers(heldC[i], k) {
+					hc = &heldC[i]
+				}
+			}
+			switch {
+			case hg == nil && hc == nil:
+				// locking is left to the callers (R15 turns that into an obligation at every call site): the function
+				// itself must not operate the stripe between the read and the close
+				for _, h := range lf.MayHeld(use) {
+					if covers(h, k) {
+						*bad = append(*bad, fmt.Sprintf("the record was read at %s without the stripe, which may be held at the close", c.pos(x.Pos())))
+					}
+				}
+			case hg == nil:
+				*bad = append(*bad, fmt.Sprintf("the record closed under %s(%s) was read at %s before the stripe was acquired", hc.Mode, hc.Key, c.pos(x.Pos())))
+			case hc == nil:
+				*bad = append(*bad, fmt.Sprintf("the record was read at %s under the stripe, which is no longer held at the close", c.pos(x.Pos())))
+			case hg.Site != hc.Site:
+				*bad = append(*bad, fmt.Sprintf("the record was read at %s in another hold of the stripe (acquired at %s) than the one the close is made in (%s)", c.pos(x.Pos()), hg.Site, hc.Site))
+			case hc.Mode != "W":
+				*bad = append(*bad, "the close is made under a read lock: two readers can both close")
+			}
+		case *ssa.Parameter:
+			// a helper that is handed the record: it must not operate a stripe itself before the close, and every
+			// call site must hand it a record read in the hold the call is made in
+			if depth >= 3 {
+				*bad = append(*bad, "the record is handed down through more than three helpers")
+				return
+			}
+			for _, h := range lf.MayHeld(use) {
+				if !strings.HasSuffix(h.Site, "entry") {
+					*bad = append(*bad, fmt.Sprintf("%s takes %s(%s) itself before it closes the record it was handed", fnName(fn), h.Mode, h.Key))
+				}
+			}
+			pi := -1
+			for i, p := range fn.Params {
+				if p == x {
+					pi = i
+				}
+			}
+			sites := 0
+			for _, g := range fns {
+				for _, b := range g.Blocks {
+					for _, in := range b.Instrs {
+						ci, ok := in.(ssa.CallInstruction)
+						if !ok || callee(ci) != fn || pi >= len(ci.Common().Args) {
+							continue
+						}
+						if _, isGo := in.(*ssa.Go); isGo {
+							*bad = append(*bad, "the helper is started as a goroutine at "+c.pos(in.Pos()))
+							continue
+						}
+						sites++
+						origins(ci.Common().Args[pi], in, g, depth+1, map[ssa.Value]bool{}, bad, nOrigins)
+					}
+				}
+			}
+			if sites == 0 {
+				*bad = append(*bad, "no call site of "+fnName(fn)+" found for the record parameter "+x.Name())
+			}
+		default:
+			*bad = append(*bad, "the record comes from "+v.String())
+		}
+	}
+	for _, fn := range fns {
 		for _, b := range fn.Blocks {
 			for _, in := range b.Instrs {
 				call, ok := in.(*ssa.Call)
@@ -344,93 +465,9 @@ var rR17x = RuleRef{Name: "R17x", Doc: "a deadline record's cancel channel is cl
 					continue
 				}
 				n++
-				lf := la.flow(fn)
 				var bad []string
 				nOrigins := 0
-				seen := map[ssa.Value]bool{}
-				var walk func(v ssa.Value)
-				walk = func(v ssa.Value) {
-					if v == nil || seen[v] {
-						return
-					}
-					seen[v] = true
-					switch x := v.(type) {
-					case *ssa.Phi:
-						for _, e := range x.Edges {
-							walk(e)
-						}
-					case *ssa.Extract:
-						walk(x.Tuple)
-					case *ssa.TypeAssert:
-						walk(x.X)
-					case *ssa.ChangeType:
-						walk(x.X)
-					case *ssa.MakeInterface:
-						walk(x.X)
-					case *ssa.UnOp:
-						if al, ok := x.X.(*ssa.Alloc); ok && x.Op == token.MUL {
-							for _, r := range *al.Referrers() {
-								if st, ok := r.(*ssa.Store); ok && st.Addr == ssa.Value(al) {
-									walk(st.Val)
-								}
-							}
-							return
-						}
-						bad = append(bad, "the record comes from memory the analysis does not follow ("+x.String()+")")
-					case *ssa.Const:
-					case *ssa.Call:
-						var key ssa.Value
-						if a := c.keyspaceAccess(x); a != nil && a.Map == "ttlKeys" && !a.Write {
-							key = a.Key
-						} else if cf := callee(x); cf != nil && firstParty(cf) {
-							if pi := c.ttlLookupHelper(cf); pi >= 0 && pi < len(x.Call.Args) {
-								key = x.Call.Args[pi]
-							}
-						}
-						if key == nil {
-							bad = append(bad, "the record is the result of "+x.Call.Value.Name()+", not of a lookup in ttlKeys by key")
-							return
-						}
-						nOrigins++
-						k := canon(key)
-						var hg, hc *heldLock
-						heldG, _ := lf.Held(x)
-						for i := range heldG {
-							if covers(heldG[i], k) {
-								hg = &heldG[i]
-							}
-						}
-						heldC, _ := lf.Held(call)
-						for i := range heldC {
-							if covers(heldC[i], k) {
-								hc = &heldC[i]
-							}
-						}
-						switch {
-						case hg == nil && hc == nil:
-							// locking is left to the callers (R15 turns that into an obligation at every call site): the function
-							// itself must not operate the stripe between the read and the close
-							for _, h := range lf.MayHeld(call) {
-								if covers(h, k) {
-									bad = append(bad, fmt.Sprintf("the record was read at %s without the stripe, which may be held at the close", c.pos(x.Pos())))
-								}
-							}
-						case hg == nil:
-							bad = append(bad, fmt.Sprintf("the record closed under %s(%s) was read at %s before the stripe was acquired", hc.Mode, hc.Key, c.pos(x.Pos())))
-						case hc == nil:
-							bad = append(bad, fmt.Sprintf("the record was read at %s under the stripe, which is no longer held at the close", c.pos(x.Pos())))
-						case hg.Site != hc.Site:
-							bad = append(bad, fmt.Sprintf("the record was read at %s in another hold of the stripe (acquired at %s) than the one the close is made in (%s)", c.pos(x.Pos()), hg.Site, hc.Site))
-						case hc.Mode != "W":
-							bad = append(bad, "the close is made under a read lock: two readers can both close")
-						}
-					case *ssa.Parameter:
-						bad = append(bad, "the record is handed in by the caller ("+x.Name()+"): where it was read is not visible here")
-					default:
-						bad = append(bad, "the record comes from "+v.String())
-					}
-				}
-				walk(fa.X)
+				origins(fa.X, call, fn, 0, map[ssa.Value]bool{}, &bad, &nOrigins)
 				if nOrigins == 0 && len(bad) == 0 {
 					bad = append(bad, "no lookup of the record found")
 				}
